@@ -116,14 +116,57 @@ func baseExperiment() *experimentsv1beta1.Experiment {
 	return e
 }
 
+// baseNASExperiment: the same experiment as a neural-architecture search: no spec.parameters, a spec.nasConfig, and a
+// template consuming the two assignments of a NAS algorithm
+func baseNASExperiment() *experimentsv1beta1.Experiment {
+	e := baseExperiment()
+	e.Spec.Parameters = nil
+	e.Spec.NasConfig = &experimentsv1beta1.NasConfig{
+		GraphConfig: experimentsv1beta1.GraphConfig{NumLayers: i32p(3), InputSizes: []int32{32, 32, 3}, OutputSizes: []int32{10}},
+		Operations: []experimentsv1beta1.Operation{
+			{OperationType: "convolution", Parameters: []experimentsv1beta1.ParameterSpec{
+				{Name: "filter_size", ParameterType: experimentsv1beta1.ParameterTypeCategorical, FeasibleSpace: experimentsv1beta1.FeasibleSpace{List: []string{"3", "5"}}},
+				{Name: "stride", ParameterType: experimentsv1beta1.ParameterTypeInt, FeasibleSpace: experimentsv1beta1.FeasibleSpace{Min: "1", Max: "2", Step: "1"}}}},
+			{OperationType: "reduction", Parameters: []experimentsv1beta1.ParameterSpec{
+				{Name: "pool_size", ParameterType: experimentsv1beta1.ParameterTypeInt, FeasibleSpace: experimentsv1beta1.FeasibleSpace{Min: "2", Max: "3", Step: "1"}}}}},
+	}
+	e.Spec.TrialTemplate.TrialParameters = []experimentsv1beta1.TrialParameterSpec{{Name: "lr", Description: "d", Reference: "architecture"}, {Name: "n", Description: "d2", Reference: "nn_config"}}
+	e.SetDefault()
+	return e
+}
+
 var (
 	specPathsOnce sync.Once
 	specPaths     []string
+	nasPathsOnce  sync.Once
+	nasPaths      []string
 )
+
+// nasFieldPaths: the editable places below spec.nasConfig (same enumeration as specFieldPaths, on the NAS experiment)
+func nasFieldPaths() []string {
+	nasPathsOnce.Do(func() {
+		saved := specPaths
+		specPathsOnce.Do(func() {})
+		specPaths = nil
+		walkSpecPaths(baseNASExperiment())
+		for _, p := range specPaths {
+			if strings.HasPrefix(p, "spec.NasConfig") {
+				nasPaths = append(nasPaths, p)
+			}
+		}
+		specPaths = saved
+	})
+	return nasPaths
+}
 
 // specFieldPaths enumerates every editable place of ExperimentSpec by reflection (so a new field is noticed)
 func specFieldPaths() []string {
-	specPathsOnce.Do(func() {
+	specPathsOnce.Do(func() { walkSpecPaths(baseExperiment()) })
+	return specPaths
+}
+
+func walkSpecPaths(b *experimentsv1beta1.Experiment) {
+	{
 		var walk func(v reflect.Value, path string)
 		walk = func(v reflect.Value, path string) {
 			switch v.Kind() {
@@ -154,10 +197,8 @@ func specFieldPaths() []string {
 				specPaths = append(specPaths, path+"#leaf")
 			}
 		}
-		b := baseExperiment()
 		walk(reflect.ValueOf(&b.Spec).Elem(), "spec")
-	})
-	return specPaths
+	}
 }
 
 func applyEdit(v reflect.Value, segs []string, kind string) bool {
@@ -247,6 +288,14 @@ func init() {
 		v := getValidator()
 		paths := specFieldPaths()
 		old := baseExperiment()
+		nas := rng.Intn(4) == 0
+		if nas {
+			// a NAS experiment; half of its non-budget edits land inside spec.nasConfig
+			old = baseNASExperiment()
+			if rng.Intn(2) == 0 {
+				paths = nasFieldPaths()
+			}
+		}
 		old.Spec.ParallelTrialCount = i32p(int32(1 + rng.Intn(3)))
 		old.Spec.MaxTrialCount = optInt32(rng, 4, 3, 8)
 		old.Spec.MaxFailedTrialCount = optInt32(rng, 3, 0, 3)
@@ -273,6 +322,9 @@ func init() {
 		}
 		nw := old.DeepCopy()
 		tags := []string{fmt.Sprintf("state=%d", state)}
+		if nas {
+			tags = append(tags, "nas")
+		}
 		path := "-"
 		mode := rng.Intn(10)
 		if mode >= 6 {
